@@ -819,7 +819,37 @@ def run_r10(ctx, rule):
     f = afn(facts, "Renumber::initialize")
     sy = sym(f)
     c = cfg(f)
-    oks = [bi for bi, b in enumerate(f.blocks) if not b["cleanup"] and bi in c.reach and any(s["k"] == "assign" and s["lhs"]["l"] == 0 and not s["lhs"]["p"] and s["rv"]["k"] == "agg" and s["rv"].get("adt") == "core::result::Result" and s["rv"].get("variant") == "Ok" for s in b["stmts"])]
+    # locals whose value becomes the function's result (a helper merged into this function hands its own result on)
+    ret_locals = {0}
+    for _ in range(6):
+        for b in f.blocks:
+            for s_ in b["stmts"]:
+                if s_["k"] == "assign" and not s_["lhs"]["p"] and s_["lhs"]["l"] in ret_locals and s_["rv"]["k"] == "use":
+                    src = s_["rv"]["a"].get("mv") or s_["rv"]["a"].get("cp")
+                    if src is not None and not src["p"]:
+                        ret_locals.add(src["l"])
+    oks = [bi for bi, b in enumerate(f.blocks) if not b["cleanup"] and bi in c.reach and any(s["k"] == "assign" and s["lhs"]["l"] in ret_locals and not s["lhs"]["p"] and s["rv"]["k"] == "agg" and s["rv"].get("adt") == "core::result::Result" and s["rv"].get("variant") == "Ok" for s in b["stmts"])]
+    # an `Ok(())` that an inlined helper hands to a `?` of this function is not the function's own success
+    final_oks = [o for o in oks if not any(norm(util.cname(t2)).endswith("Try>::branch") for b2, t2 in f.calls() if b2 in c.reachable_from(o))]
+    if final_oks:
+        oks = final_oks
+    def leads_into_error(bi):
+        """the `?` of a transfer: the Break arm builds the error (from_residual / Err(..)) before anything else"""
+        for _ in range(5):
+            if carries_error(bi):
+                return True
+            nx = [x for x in c.succ[bi] if not f.blocks[x]["cleanup"]]
+            if len(nx) != 1:
+                return False
+            bi = nx[0]
+        return False
+
+    def carries_error(bi):
+        b = f.blocks[bi]
+        if any(s_["k"] == "assign" and s_["rv"]["k"] == "agg" and s_["rv"].get("adt") == "core::result::Result" and s_["rv"].get("variant") == "Err" for s_ in b["stmts"]):
+            return True
+        t_ = b["term"]
+        return t_["k"] == "call" and norm(util.cname(t_)).endswith("from_residual")
     if not oks:
         rule.bad("initialize/no-ok", "anchor missing: initialize has no `Ok(..)` return", f.loc(), kind="anchor-missing")
         return
@@ -867,7 +897,7 @@ def run_r10(ctx, rule):
                 # left towards Ok only by exhaustion
                 for a in body:
                     for b2 in c.succ[a]:
-                        if b2 not in body and b2 in can_ok and not f.blocks[b2]["cleanup"] and not exhaustion_test(a):
+                        if b2 not in body and b2 in can_ok and not f.blocks[b2]["cleanup"] and not exhaustion_test(a) and not any(carries_error(e_) and e_ in body and c.dominates(e_, a) for e_ in body) and not leads_into_error(b2):
                             ok_chain = False
                             why = "the loop over `%s` can be left towards Ok before its iterator is exhausted (%s)" % (root, f.loc(a))
             if ok_chain:
